@@ -44,6 +44,14 @@ type dnsEntryObs struct {
 	countAtRemoval int
 }
 
+// cause: the controller path that evicted the entry (known once its delete callback ran).
+func (e *dnsEntryObs) cause(w *dnsWorld) string {
+	if c, ok := w.evictCause[e.ptr]; ok {
+		return c
+	}
+	return e.removeCtx
+}
+
 // lifetime returns the scripted/effective TTL deadline of the entry (ok=false when unknown).
 func (e *dnsEntryObs) deadline(w *dnsWorld) (time.Duration, bool) {
 	o := e
